@@ -1,7 +1,9 @@
 // Correspondence harness for property C15 (`$name`): the real TargetList / TargetComponent /
 // SimpleEntity / ScriptVM of /repo, same line protocol as lean/Driver/Target.lean.
 //
-//   universe snapshot=<b> fieldfan=<b> max=<n>     fresh ScriptContext, `level.n = 0` (flags are for the model only)
+//   universe snapshot=<b> fieldfan=<b> max=<n> [dbg=<b> warn=<b> dev=<b>]
+//                               fresh ScriptContext, `level.n = 0`; snapshot/fieldfan are for the model only;
+//                               dbg / warn: a Debug / Warn output stream is attached (default 0 / 1), dev: developer mode
 // host level (direct calls):
 //   spawn                       new SimpleEntity; ids are 1,2,... in creation order
 //   setname <o> <n>             o->GetTargetComponent().SetTargetName(name n)
@@ -36,6 +38,8 @@ using namespace mfuse;
 
 namespace {
 std::ostringstream g_out;
+std::ostringstream g_dbgSink;              // Debug stream when attached: its text is not compared
+bool g_dbg = false, g_warn = true, g_dev = false;
 std::unique_ptr<ScriptContext> g_ctx;
 std::vector<SafePtr<Listener>> g_objs;      // g_objs[id-1]
 size_t g_max = 8;
@@ -64,11 +68,11 @@ void freshContext()
     g_ctx->EventContext::Set(g_ctx.get());
     OutputInfo& oi = g_ctx->GetOutputInfo();
     oi.SetOutputStream(outputLevel_e::Output, &g_out);
-    oi.SetOutputStream(outputLevel_e::Warn, &g_out);
+    oi.SetOutputStream(outputLevel_e::Warn, g_warn ? &g_out : nullptr);
     oi.SetOutputStream(outputLevel_e::Error, &g_out);
-    oi.SetOutputStream(outputLevel_e::Debug, nullptr);
+    oi.SetOutputStream(outputLevel_e::Debug, g_dbg ? &g_dbgSink : nullptr);
     oi.SetOutputStream(outputLevel_e::Verbose, nullptr);
-    g_ctx->GetSettings().SetDeveloperEnabled(false);
+    g_ctx->GetSettings().SetDeveloperEnabled(g_dev);
     g_out.str(""); g_out.clear();
     g_scriptNo = 0;
 }
@@ -168,10 +172,17 @@ std::string takeOut()
         std::string line = s.substr(i, j - i);
         i = j + 1;
         if (line.empty()) continue;
+        if (g_dev && line.size() > 4 && line[0] == '(' && line[1] == 'c' && line.compare(line.size() - 2, 2, "):") == 0) {
+            // developer mode: HandleScriptException prints the source position in front of the
+            // warning: "(c<k>, <line>):", the source line, a caret line
+            for (int k = 0; k < 2 && i < s.size(); ++k) { size_t e = s.find('\n', i); i = (e == std::string::npos) ? s.size() : e + 1; }
+            continue;
+        }
         const std::string w = "^~^~^ Script Warning : ";
         if (line.compare(0, w.size(), w) == 0) {
             const std::string m = line.substr(w.size());
-            if (m.find("applied to NULL listener") != std::string::npos) line = "!null";
+            if (m.find("Can't find target name") != std::string::npos) line = "!notarget";
+            else if (m.find("applied to NULL listener") != std::string::npos) line = "!null";
             else if (m.find("applied to NIL") != std::string::npos) line = "!nil";
             else if (m.find("Cannot cast 'none' to 'listener'") != std::string::npos) line = "!nil";
             else if (m.find("Cannot cast 'array' to 'listener'") != std::string::npos || m.find("Cannot cast 'const array' to 'listener'") != std::string::npos) line = "!cast";
@@ -207,8 +218,13 @@ int main()
         const std::string& op = t[0];
         std::string r;
         try {
-            if (op == "universe" && t.size() == 4 && t[3].compare(0, 4, "max=") == 0) {
+            if (op == "universe" && (t.size() == 4 || t.size() == 7) && t[3].compare(0, 4, "max=") == 0) {
                 g_max = std::stoul(t[3].substr(4));
+                g_dbg = false; g_warn = true; g_dev = false;
+                if (t.size() == 7) {
+                    if (t[4].compare(0, 4, "dbg=") || t[5].compare(0, 5, "warn=") || t[6].compare(0, 4, "dev=")) { say("bad-op"); continue; }
+                    g_dbg = t[4].substr(4) == "1"; g_warn = t[5].substr(5) == "1"; g_dev = t[6].substr(4) == "1";
+                }
                 freshContext();
                 {
                     // script-level bookkeeping: level.n = number of objects spawned so far
